@@ -10,6 +10,10 @@ config:  default  (Numbers picks GMP when libgmp loads)
 Output: one line "#backend\t<class name>" and then one line per item: "<label>\t<rendered value>".
 Everything is deterministic: fixture keys, explicit entropy streams, deterministic signature
 schemes.  Items catch their own exceptions and print "EXC:<class>".
+
+Sections rsa-sign2, dsa2, ecc2, primality2 and keygen exist in the thorough tier only (wave 2): they vary the
+dimensions the first six sections fix (hash functions, message/plaintext lengths, salt lengths, private-key and
+scalar boundary values, forged signatures, larger primality range and candidates, complete key generation).
 """
 import hashlib
 import sys
@@ -140,6 +144,112 @@ def sec_rsa_sign(tier):
                 c = {"n": k.n, "n+5": k.n + 5}.get(bad, bad)
                 return k._decrypt(c)
             yield lab, rawbad
+
+
+def sec_rsa_sign_deep(tier):
+    """thorough only (wave 2): the dimensions sec_rsa_sign fixes - hash functions, message lengths, PSS salt lengths
+    and MGF1 hashes, OAEP hash/MGF/label and EVERY plaintext length, PKCS#1 v1.5 EVERY plaintext length, more raw
+    operands; all eleven fixture keys"""
+    from Crypto.Signature import pkcs1_15, pss
+    from Crypto.Cipher import PKCS1_OAEP, PKCS1_v1_5
+    from Crypto.Hash import SHA1, SHA224, SHA256, SHA384, SHA512, SHA3_224, SHA3_384, SHA3_512
+    if tier != "thorough":
+        return
+    msgs = [b"\x00", asc(1000, 7)]
+    for bits, e in RSA_KEYS:
+        tagk = "rsa%d-e%d" % (bits, e)
+
+        def key(bits=bits, e=e):
+            return _rsa(bits, e)[0]
+        hashes = (("sha224", lambda m: SHA224.new(m)), ("sha384", lambda m: SHA384.new(m)),
+                  ("sha512_224", lambda m: SHA512.new(m, truncate="224")),
+                  ("sha512_256", lambda m: SHA512.new(m, truncate="256")),
+                  ("sha3_224", lambda m: SHA3_224.new(m)), ("sha3_384", lambda m: SHA3_384.new(m)),
+                  ("sha3_512", lambda m: SHA3_512.new(m)))
+        for hn, H in hashes:
+            for mi, m in enumerate([b"", asc(100, 3)] + msgs):
+                lab = "rsa-sign/pkcs1_15/%s/%s/m%d" % (tagk, hn, mi)
+
+                def sign15(key=key, H=H, m=m):
+                    s = pkcs1_15.new(key()).sign(H(m))
+                    pkcs1_15.new(key().public_key()).verify(H(m), s)
+                    return s
+                yield lab, sign15
+                lab = "rsa-sign/pss/%s/%s/m%d" % (tagk, hn, mi)
+
+                def signpss(key=key, H=H, m=m, lab=lab):
+                    s = pss.new(key(), rand_func=Stream(lab)).sign(H(m))
+                    pss.new(key().public_key()).verify(H(m), s)
+                    return s
+                yield lab, signpss
+        for hn, H in (("sha1", SHA1), ("sha256", SHA256), ("sha512", SHA512)):
+            for mi, m in enumerate(msgs):
+                lab = "rsa-sign/pkcs1_15/%s/%s/m%d" % (tagk, hn, mi + 2)
+                yield lab, (lambda key=key, H=H, m=m: pkcs1_15.new(key()).sign(H.new(m)))
+        # PSS: salt length 0, 1, hLen-1, hLen+1, the maximum and one more than the maximum; MGF1 over another hash
+        k_bytes = (bits + 7) // 8
+        em_len = (bits - 1 + 7) // 8
+        for hn, H in (("sha1", SHA1), ("sha256", SHA256), ("sha384", SHA384)):
+            mx = em_len - H.digest_size - 2
+            for sl in sorted(set((0, 1, H.digest_size - 1, H.digest_size + 1, mx - 1, mx, mx + 1))):
+                for mg, MG in (("same", None), ("mgf-sha1", SHA1), ("mgf-sha512", SHA512)):
+                    if mg != "same" and sl not in (0, mx):
+                        continue
+                    lab = "rsa-sign/pss-salt/%s/%s/salt%d/%s" % (tagk, hn, sl, mg)
+
+                    def pss_salt(key=key, H=H, sl=sl, MG=MG, lab=lab):
+                        kw = {"salt_bytes": sl, "rand_func": Stream(lab)}
+                        if MG is not None:
+                            kw["mask_func"] = lambda x, y, MG=MG: pss.MGF1(x, y, MG)
+                        h = H.new(asc(33, 1))
+                        s = pss.new(key(), **kw).sign(h)
+                        pss.new(key().public_key(), **kw).verify(h, s)
+                        return s
+                    yield lab, pss_salt
+        # OAEP: hash x MGF hash x label; every plaintext length for the first two keys, boundary lengths otherwise
+        for hn, H in (("sha1", SHA1), ("sha256", SHA256), ("sha512", SHA512)):
+            mx = k_bytes - 2 * H.digest_size - 2
+            if (bits, e) in RSA_KEYS[:2] and hn != "sha512":
+                lens = list(range(0, mx + 2))
+            else:
+                lens = sorted(set(x for x in (0, 1, mx - 1, mx, mx + 1) if x >= 0))
+            for ml in lens:
+                for li, label in enumerate((b"", b"label-" * 9)):
+                    if li and ml not in (0, mx):
+                        continue
+                    lab = "rsa-enc/oaep-full/%s/%s/len%d/l%d" % (tagk, hn, ml, li)
+
+                    def oaep(key=key, H=H, ml=ml, label=label, lab=lab):
+                        ct = PKCS1_OAEP.new(key().public_key(), hashAlgo=H, label=label,
+                                            randfunc=Stream(lab)).encrypt(asc(ml, 9))
+                        pt = PKCS1_OAEP.new(key(), hashAlgo=H, label=label, randfunc=Stream(lab + "b")).decrypt(ct)
+                        try:
+                            PKCS1_OAEP.new(key(), hashAlgo=H, label=label + b"x", randfunc=Stream(lab + "c")).decrypt(ct)
+                            other = "accepted"
+                        except ValueError:
+                            other = "rejected"
+                        return (ct, pt, other)
+                    yield lab, oaep
+        mx = k_bytes - 11
+        lens = list(range(0, mx + 2)) if (bits, e) in RSA_KEYS[:2] else [2, mx - 1, mx, mx + 1]
+        for ml in lens:
+            lab = "rsa-enc/v1_5-full/%s/len%d" % (tagk, ml)
+
+            def v15(key=key, ml=ml, lab=lab):
+                ct = PKCS1_v1_5.new(key().public_key(), randfunc=Stream(lab)).encrypt(asc(ml, 9))
+                pt = PKCS1_v1_5.new(key(), randfunc=Stream(lab + "b")).decrypt(ct, b"SENTINEL")
+                return (ct, pt)
+            yield lab, v15
+        for ci, cv in enumerate((3, 255, 256, 2 ** 64 - 1, 2 ** 64, 2 ** 64 + 1, 2 ** 512, "2^(bits-2)", "n-2", "n//2",
+                                 "p", "q", "p*2", "sqrt")):
+            lab = "rsa-raw/%s/d%d" % (tagk, ci)
+
+            def raw(key=key, cv=cv, bits=bits):
+                k = key()
+                c = {"n-2": k.n - 2, "n//2": k.n // 2, "2^(bits-2)": 2 ** (bits - 2), "p": int(k.p), "q": int(k.q),
+                     "p*2": int(k.p) * 2, "sqrt": 2 ** (bits // 2)}.get(cv, cv)
+                return (k._encrypt(c), k._decrypt(c), k._decrypt_to_bytes(c))
+            yield lab, raw
 
 
 def sec_rsa_keys(tier):
@@ -315,6 +425,149 @@ def sec_dsa(tier):
         yield "dsa-generate/1024", gen
 
 
+def sec_dsa_deep(tier):
+    """thorough only (wave 2): more hash functions (SHA-3, truncated SHA-512) and messages for the deterministic
+    signatures, verification of altered signatures at both ends, signatures whose r or s is 0 / q / out of range"""
+    from Crypto.Signature import DSS
+    from Crypto.Hash import SHA1, SHA256, SHA512, SHA3_224, SHA3_256, SHA3_384, SHA3_512
+    if tier != "thorough":
+        return
+    hashes = (("sha3_224", lambda m: SHA3_224.new(m)), ("sha3_256", lambda m: SHA3_256.new(m)),
+              ("sha3_384", lambda m: SHA3_384.new(m)), ("sha3_512", lambda m: SHA3_512.new(m)),
+              ("sha512_224", lambda m: SHA512.new(m, truncate="224")),
+              ("sha512_256", lambda m: SHA512.new(m, truncate="256")))
+    for L in (1024, 2048, 3072):
+        for hn, H in hashes:
+            for mi, m in enumerate((b"sample", b"test", b"", asc(1000, 5))):
+                for enc in ("binary", "der"):
+                    lab = "dsa-sign/rfc6979/L%d/%s/m%d/%s" % (L, hn, mi, enc)
+
+                    def det(L=L, H=H, m=m, enc=enc):
+                        k, c = _dsa(L)
+                        s = DSS.new(k, "deterministic-rfc6979", encoding=enc).sign(H(m))
+                        DSS.new(k.public_key(), "deterministic-rfc6979", encoding=enc).verify(H(m), s)
+                        return s
+                    yield lab, det
+        for hn, H in (("sha1", SHA1), ("sha256", SHA256), ("sha512", SHA512)):
+            for mi in range(3, 12):
+                lab = "dsa-sign/rfc6979/L%d/%s/m%d/binary" % (L, hn, mi)
+
+                def det2(L=L, H=H, mi=mi):
+                    k, c = _dsa(L)
+                    return DSS.new(k, "deterministic-rfc6979").sign(H.new(asc(mi * 37, mi)))
+                yield lab, det2
+        for what in ("r=0", "s=0", "r=q", "s=q", "r=q-1", "s=q-1", "r>q", "flip-first", "flip-middle", "short", "long"):
+            lab = "dsa-verify/forged/L%d/%s" % (L, what)
+
+            def forged(L=L, what=what):
+                k, c = _dsa(L)
+                q = c["q"]
+                n = (q.bit_length() + 7) // 8
+                h = SHA256.new(b"forged")
+                s = DSS.new(k, "deterministic-rfc6979").sign(h)
+                r_, s_ = int.from_bytes(s[:n], "big"), int.from_bytes(s[n:], "big")
+                t = {"r=0": (0, s_), "s=0": (r_, 0), "r=q": (q, s_), "s=q": (r_, q), "r=q-1": (q - 1, s_),
+                     "s=q-1": (r_, q - 1), "r>q": (r_ + q, s_)}.get(what)
+                if t is not None:
+                    try:
+                        sig = t[0].to_bytes(n, "big") + t[1].to_bytes(n, "big")
+                    except OverflowError:
+                        return "unrepresentable"
+                elif what == "flip-first":
+                    sig = bytes([s[0] ^ 0x80]) + s[1:]
+                elif what == "flip-middle":
+                    sig = s[:n] + bytes([s[n] ^ 1]) + s[n + 1:]
+                elif what == "short":
+                    sig = s[:-1]
+                else:
+                    sig = s + b"\x00"
+                try:
+                    DSS.new(k.public_key(), "fips-186-3").verify(h, sig)
+                    return "accepted"
+                except ValueError:
+                    return "rejected"
+            yield lab, forged
+
+
+def sec_keygen(tier):
+    """thorough only (wave 2): complete key generation from explicit entropy - the longest chains of Integer
+    operations in the library (prime generation with sieving, Miller-Rabin, Lucas, gcd, inverse, lcm)"""
+    from Crypto.PublicKey import RSA, DSA, ElGamal, ECC
+    if tier != "thorough":
+        return
+    # (costliest first: the driver gives every item of this section its own shard)
+    def dsa_items(sizes):
+        for bits, nt_ in sizes:
+            for t in range(nt_):
+                lab = "keygen/dsa/%d/t%d" % (bits, t)
+
+                def dsagen(bits=bits, lab=lab):
+                    st = Stream(lab)
+                    k = DSA.generate(bits, randfunc=st)
+                    return (k.p, k.q, k.g, k.y, k.x, st.ctr)
+                yield lab, dsagen
+
+    def rsa_items(sizes):
+        for bits, e, nt_ in sizes:
+            for t in range(nt_):
+                lab = "keygen/rsa/%d-e%d/t%d" % (bits, e, t)
+
+                def rsagen(bits=bits, e=e, lab=lab):
+                    st = Stream(lab)
+                    k = RSA.generate(bits, randfunc=st, e=e)
+                    return (k.n, k.e, k.d, k.p, k.q, k.u, k.size_in_bits(), st.ctr, _tn(k.p))
+                yield lab, rsagen
+
+    def elg_items(sizes):
+        for bits, nt_ in sizes:
+            for t in range(nt_):
+                lab = "keygen/elgamal/%d/t%d" % (bits, t)
+
+                def elggen(bits=bits, lab=lab):
+                    st = Stream(lab)
+                    k = ElGamal.generate(bits, st)
+                    return (int(k.p), int(k.g), int(k.y), int(k.x), st.ctr)
+                yield lab, elggen
+    for it in dsa_items(((2048, 3),)):
+        yield it
+    for it in rsa_items(((3072, 65537, 1),)):
+        yield it
+    for it in elg_items(((320, 2),)):
+        yield it
+    for it in rsa_items(((2048, 65537, 3), (2048, 3, 2))):
+        yield it
+    for it in dsa_items(((1024, 8),)):
+        yield it
+    for it in elg_items(((256, 6),)):
+        yield it
+    for it in rsa_items(((1536, 65537, 3), (1024, 65537, 8), (1024, 3, 8), (1024, 257, 4), (1025, 65537, 4), (1031, 17, 4),
+                         (1032, 65537, 4))):
+        yield it
+    for t in range(4):
+        lab = "keygen/dsa-domain/1024/t%d" % t
+
+        def dsadom(lab=lab):
+            k0 = _dsa(1024)[1]
+            st = Stream(lab)
+            k = DSA.generate(1024, randfunc=st, domain=(k0["p"], k0["q"], k0["g"]))
+            return (k.y, k.x, st.ctr)
+        yield lab, dsadom
+    for cv in ("p192", "p224", "p256", "p384", "p521", "ed25519", "ed448", "curve25519", "curve448"):
+        for t in range(4):
+            lab = "keygen/ecc/%s/t%d" % (cv, t)
+
+            def eccgen(cv=cv, lab=lab):
+                st = Stream(lab)
+                k = ECC.generate(curve=cv, randfunc=st)
+                out = [st.ctr, int(k.pointQ.x)]
+                if cv.startswith("p"):
+                    out += [int(k.d), int(k.pointQ.y)]
+                else:
+                    out.append(k.export_key(format="DER"))
+                return out
+            yield lab, eccgen
+
+
 def sec_ecc(tier):
     from Crypto.PublicKey import ECC
     from Crypto.Signature import DSS, eddsa
@@ -421,6 +674,253 @@ def sec_ecc(tier):
             k = ECC.generate(curve=cv, randfunc=Stream(lab))
             return (int(k.d), int(k.pointQ.x), int(k.pointQ.y))
         yield lab, gen
+
+
+def sec_ecc_deep(tier):
+    """thorough only (wave 2): every hash length against every curve order for deterministic ECDSA, boundary private
+    keys, more decompression inputs, point arithmetic on a scalar alphabet (Integer and int scalars), point
+    validation, more EdDSA/XDH seeds"""
+    from Crypto.PublicKey import ECC
+    from Crypto.Signature import DSS, eddsa
+    from Crypto.Hash import SHA1, SHA224, SHA256, SHA384, SHA512, SHA3_256, SHA3_512
+    from Crypto.Protocol.DH import key_agreement
+    from Crypto.Math.Numbers import Integer
+    if tier != "thorough":
+        return
+    curves = ("p192", "p224", "p256", "p384", "p521")
+
+    def order_of(cv):
+        return int(ECC._curves[cv].order)
+
+    def dvals(cv):
+        n = order_of(cv)
+        return (("one", 1), ("two", 2), ("n-2", n - 2), ("2^64", 2 ** 64), ("2^64-1", 2 ** 64 - 1),
+                ("half", n // 2), ("top-bit", 1 << (n.bit_length() - 1)),
+                ("seed3", int.from_bytes(hashlib.sha512(("c16ecc%s3" % cv).encode()).digest() * 2, "big") % (n - 1) + 1))
+    for cv in curves:
+        for hn, H in (("sha1", SHA1), ("sha224", SHA224), ("sha384", SHA384), ("sha512", SHA512),
+                      ("sha3_256", SHA3_256), ("sha3_512", SHA3_512)):
+            for dn, _ in dvals(cv)[4:]:
+                for mi, m in enumerate((b"sample", b"", asc(300, 1))):
+                    lab = "ecdsa/rfc6979/%s/%s/%s/m%d" % (cv, dn, hn, mi)
+
+                    def det(cv=cv, dn=dn, H=H, m=m):
+                        k = ECC.construct(curve=cv, d=dict(dvals(cv))[dn])
+                        s = DSS.new(k, "deterministic-rfc6979").sign(H.new(m))
+                        try:
+                            DSS.new(k.public_key(), "fips-186-3").verify(H.new(m), s)
+                            v = "verified"
+                        except ValueError:
+                            v = "refused"                # FIPS 186-3 mode refuses hashes weaker than the curve
+                        return (s, v)
+                    yield lab, det
+        for dn, _ in dvals(cv):
+            lab = "ecc-key/%s/%s" % (cv, dn)
+
+            def bkey(cv=cv, dn=dn):
+                k = ECC.construct(curve=cv, d=dict(dvals(cv))[dn])
+                s = DSS.new(k, "deterministic-rfc6979", encoding="der").sign(SHA256.new(b"boundary"))
+                blob = k.export_key(format="DER")
+                back = ECC.import_key(blob)
+                return (int(k.pointQ.x), int(k.pointQ.y), s, blob, int(back.d), k.public_key().export_key(format="SEC1"),
+                        k.public_key().export_key(format="SEC1", compress=True))
+            yield lab, bkey
+        for what in ("r=0", "s=0", "r=n", "s=n", "s=n-1", "flip", "short"):
+            lab = "ecdsa-verify/forged/%s/%s" % (cv, what)
+
+            def forged(cv=cv, what=what):
+                n = order_of(cv)
+                k = ECC.construct(curve=cv, d=dict(dvals(cv))["seed3"])
+                h = SHA256.new(b"forged")
+                s = DSS.new(k, "deterministic-rfc6979").sign(h)
+                sz = len(s) // 2
+                r_, s_ = int.from_bytes(s[:sz], "big"), int.from_bytes(s[sz:], "big")
+                t = {"r=0": (0, s_), "s=0": (r_, 0), "r=n": (n, s_), "s=n": (r_, n), "s=n-1": (r_, n - 1)}.get(what)
+                if t is not None:
+                    sig = t[0].to_bytes(sz, "big") + t[1].to_bytes(sz, "big")
+                elif what == "flip":
+                    sig = s[:-1] + bytes([s[-1] ^ 1])
+                else:
+                    sig = s[:-1]
+                try:
+                    DSS.new(k.public_key(), "fips-186-3").verify(h, sig)
+                    return "accepted"
+                except ValueError:
+                    return "rejected"
+            yield lab, forged
+        for xi in range(12, 48):
+            lab = "ecc-decompress/%s/x%d" % (cv, xi)
+
+            def decomp(cv=cv, xi=xi):
+                c = ECC._curves[cv]
+                size = (int(c.p).bit_length() + 7) // 8
+                x = int.from_bytes(hashlib.sha512(("c16x%s%d" % (cv, xi)).encode()).digest() * 2, "big") % int(c.p)
+                out = []
+                for prefix in (b"\x02", b"\x03"):
+                    try:
+                        k = ECC.import_key(prefix + x.to_bytes(size, "big"), curve_name=cv)
+                        out.append((int(k.pointQ.x), int(k.pointQ.y)))
+                    except Exception as e:  # noqa
+                        out.append("EXC:" + type(e).__name__)
+                return out
+            yield lab, decomp
+        for xn in ("zero", "one", "p-1", "p", "Gx"):
+            lab = "ecc-decompress/%s/%s" % (cv, xn)
+
+            def decompb(cv=cv, xn=xn):
+                c = ECC._curves[cv]
+                size = (int(c.p).bit_length() + 7) // 8
+                x = {"zero": 0, "one": 1, "p-1": int(c.p) - 1, "p": int(c.p), "Gx": int(c.Gx)}[xn]
+                out = []
+                for prefix in (b"\x02", b"\x03"):
+                    try:
+                        k = ECC.import_key(prefix + x.to_bytes(size, "big"), curve_name=cv)
+                        out.append((int(k.pointQ.x), int(k.pointQ.y)))
+                    except Exception as e:  # noqa
+                        out.append("EXC:" + type(e).__name__)
+                return out
+            yield lab, decompb
+    # point arithmetic: scalar alphabet x (Integer | int) scalars, on Weierstrass and Edwards curves
+    for cv in curves + ("ed25519", "ed448"):
+        n = order_of(cv)
+        scal = (("0", 0), ("1", 1), ("2", 2), ("3", 3), ("n-1", n - 1), ("n", n), ("n+1", n + 1), ("2n", 2 * n),
+                ("2^64-1", 2 ** 64 - 1), ("2^64", 2 ** 64), ("2^bits-1", (1 << n.bit_length()) - 1),
+                ("2^640", 2 ** 640), ("seeded", int.from_bytes(hashlib.sha512(("c16sc" + cv).encode()).digest() * 2, "big")),
+                ("-1", -1))
+        for sn, k in scal:
+            for form in ("Integer", "int"):
+                lab = "ecc-point/%s/%s/%s" % (cv, sn, form)
+
+                def arith(cv=cv, k=k, form=form):
+                    def xy(P):
+                        return "inf" if P.is_point_at_infinity() else (int(P.x), int(P.y), _tn(P.x))
+                    G = ECC._curves[cv].G
+                    P = G * (Integer(k) if form == "Integer" else k)
+                    Q = P + G
+                    D = P.copy()
+                    D.double()
+                    N = -P
+                    Z = P + N
+                    R = (Integer(k) if form == "Integer" else k) * G
+                    return (xy(P), xy(Q), xy(D), xy(N), xy(Z), R == P, P == G, P.size_in_bits())
+                yield lab, arith
+    for cv in curves:
+        for what in ("G", "G.y+1", "x=p", "zero", "neg-G"):
+            lab = "ecc-construct/point/%s/%s" % (cv, what)
+
+            def cons(cv=cv, what=what):
+                c = ECC._curves[cv]
+                gx, gy, p_ = int(c.Gx), int(c.Gy), int(c.p)
+                x, y = {"G": (gx, gy), "G.y+1": (gx, gy + 1), "x=p": (p_, gy), "zero": (0, 0),
+                        "neg-G": (gx, p_ - gy)}[what]
+                k = ECC.construct(curve=cv, point_x=x, point_y=y)
+                return (int(k.pointQ.x), int(k.pointQ.y), k.export_key(format="DER"))
+            yield lab, cons
+    for cv, nb in (("ed25519", 32), ("ed448", 57)):
+        for si in range(3, 12):
+            lab = "eddsa/%s/s%d" % (cv, si)
+
+            def ed(cv=cv, nb=nb, si=si):
+                k = ECC.construct(curve=cv, seed=Stream("c16ed%s%d" % (cv, si))(nb))
+                out = [k.public_key().export_key(format="raw"), int(k.pointQ.x), int(k.pointQ.y), int(k.d)]
+                for m in (b"", asc(si * 29, si)):
+                    s = eddsa.new(k, "rfc8032").sign(m)
+                    eddsa.new(k.public_key(), "rfc8032").verify(m, s)
+                    out.append(s)
+                    bad = s[:-1] + bytes([s[-1] ^ 0x40])
+                    try:
+                        eddsa.new(k.public_key(), "rfc8032").verify(m, bad)
+                        out.append("accepted")
+                    except ValueError:
+                        out.append("rejected")
+                return out
+            yield lab, ed
+    for cv, nb in (("curve25519", 32), ("curve448", 56)):
+        for si in range(3, 12):
+            lab = "xdh/%s/s%d" % (cv, si)
+
+            def xdh(cv=cv, nb=nb, si=si):
+                a = ECC.construct(curve=cv, seed=Stream("c16xa%s%d" % (cv, si))(nb))
+                b = ECC.construct(curve=cv, seed=Stream("c16xb%s%d" % (cv, si))(nb))
+                z = key_agreement(static_priv=a, static_pub=b.public_key(), kdf=lambda x: x)
+                z2 = key_agreement(static_priv=b, static_pub=a.public_key(), kdf=lambda x: x)
+                return (a.public_key().export_key(format="raw"), z, z == z2, int(a.pointQ.x))
+            yield lab, xdh
+    for cv in curves:
+        for di in range(4):
+            lab = "ecdh/%s/pair%d" % (cv, di)
+
+            def ecdh(cv=cv, di=di):
+                n = order_of(cv)
+                da = int.from_bytes(hashlib.sha512(("c16dha%s%d" % (cv, di)).encode()).digest() * 2, "big") % (n - 1) + 1
+                db = (n - 1) if di == 3 else 12345678901234567890 + di
+                a, b = ECC.construct(curve=cv, d=da), ECC.construct(curve=cv, d=db)
+                z = key_agreement(static_priv=a, static_pub=b.public_key(), kdf=lambda x: x)
+                return (z, z == key_agreement(static_priv=b, static_pub=a.public_key(), kdf=lambda x: x))
+            yield lab, ecdh
+
+
+def sec_primality_deep(tier):
+    """thorough only (wave 2): the exhaustive range continued from 2^17 to 2^19, large candidates (fixture primes,
+    their products and squares, large Mersenne numbers, neighbours of the curve primes), more generation sizes/seeds"""
+    from Crypto.Math import Primality
+    if tier != "thorough":
+        return
+
+    def verdicts(ns, lab):
+        out = []
+        for n in ns:
+            tp = Primality.test_probable_prime(n, randfunc=Stream("%s|tp|%d" % (lab, n)))
+            mr = Primality.miller_rabin_test(n, 3, randfunc=Stream("%s|mr|%d" % (lab, n)))
+            lu = Primality.lucas_test(n)
+            out.append("%d%d%d" % (tp, mr, lu))
+        return "".join(out)
+    for lo in range(2 ** 17, 2 ** 19, 256):
+        lab = "primality/range/%d-%d" % (lo, lo + 255)
+        yield lab, (lambda lo=lo, lab=lab: verdicts(range(lo, lo + 256), lab))
+
+    def big(name):
+        from mc.keys import rsa_components, dsa_components
+        if name.startswith("rsa"):
+            bits, e = name[3:].split("-e")
+            c = rsa_components(int(bits), int(e))
+            p_, q_ = c["p"], c["q"]
+            return [p_, q_, p_ * q_, p_ * p_, p_ + 2, q_ - 2, (p_ - 1) // 2, 2 * p_ + 1, p_ * 3, c["d"] | 1]
+        if name.startswith("dsa"):
+            c = dsa_components(int(name[3:]))
+            return [c["p"], c["q"], c["p"] * c["q"], c["q"] * c["q"], (c["p"] - 1) // c["q"], c["p"] + 2, c["q"] + 2,
+                    c["g"] | 1]
+        if name == "mersenne":
+            return [2 ** k - 1 for k in (1277, 1279, 2203, 2281, 2293)]
+        if name == "near-curve":
+            out = []
+            for cp in (2 ** 255 - 19, 2 ** 256 - 2 ** 224 + 2 ** 192 + 2 ** 96 - 1, 2 ** 384 - 2 ** 128 - 2 ** 96 + 2 ** 32 - 1,
+                       2 ** 521 - 1, 2 ** 448 - 2 ** 224 - 1):
+                out += [cp - 2, cp + 2, cp * cp, 2 * cp + 1, cp * (2 ** 127 - 1)]
+            return out
+        raise ValueError(name)
+    names = ["rsa%d-e%d" % be for be in RSA_KEYS] + ["dsa1024", "dsa2048", "dsa3072", "mersenne", "near-curve"]
+    for name in names:
+        for idx in range(len(big(name)) if not name.startswith(("rsa", "dsa")) else (10 if name.startswith("rsa") else 8)):
+            lab = "primality/big/%s/%d" % (name, idx)
+
+            def bigv(name=name, idx=idx, lab=lab):
+                n = big(name)[idx]
+                return (n.bit_length(), verdicts([n], lab))
+            yield lab, bigv
+    for bits in (160, 161, 191, 192, 255, 256, 257, 511, 512, 513):
+        for t in range(2, 5):
+            lab = "primality/generate/%d/t%d" % (bits, t)
+            yield lab, (lambda bits=bits, lab=lab: Primality.generate_probable_prime(exact_bits=bits,
+                                                                                     randfunc=Stream(lab)))
+    for bits in (163, 200, 224, 384, 521, 640, 768, 1024):
+        lab = "primality/generate/%d/t0" % bits
+        yield lab, (lambda bits=bits, lab=lab: Primality.generate_probable_prime(exact_bits=bits,
+                                                                                 randfunc=Stream(lab)))
+    for bits, t in ((161, 1), (161, 2), (192, 0), (224, 0), (256, 0)):
+        lab = "primality/generate-safe/%d/t%d" % (bits, t)
+        yield lab, (lambda bits=bits, lab=lab: Primality.generate_probable_safe_prime(exact_bits=bits,
+                                                                                      randfunc=Stream(lab)))
 
 
 def sec_primality(tier):
@@ -532,7 +1032,10 @@ def sec_misc(tier):
 
 
 SECTIONS = {"rsa-sign": sec_rsa_sign, "rsa-keys": sec_rsa_keys, "dsa": sec_dsa, "ecc": sec_ecc,
-            "primality": sec_primality, "misc": sec_misc}
+            "primality": sec_primality, "misc": sec_misc,
+            # thorough only (wave 2)
+            "rsa-sign2": sec_rsa_sign_deep, "dsa2": sec_dsa_deep, "ecc2": sec_ecc_deep,
+            "primality2": sec_primality_deep, "keygen": sec_keygen}
 EXPECTED_BACKEND = {"default": "IntegerGMP", "nogmp": "IntegerCustom", "native": "IntegerNative"}
 
 
